@@ -30,7 +30,7 @@ TraceInit == /\ tid \in 1..Len(Traces)
 
 (* A rejected event is reported and the monitor moves on (MonEffect is total), so *)
 (* the rest of the execution is still checked; at most MaxRej reports per trace.  *)
-MaxRej == 3
+MaxRej == IF "maxrej" \in DOMAIN Traces[tid].h THEN Traces[tid].h.maxrej ELSE 3
 TraceStep == /\ l <= Len(Traces[tid].ev)
              /\ nrej < MaxRej
              /\ LET ev == Traces[tid].ev[l]
